@@ -61,6 +61,25 @@ Theorem C19_answered_within_limit : forall limit delay st, 0 < limit -> snd (ser
 Proof. exact answered_within_limit. Qed.
 Print Assumptions C19_answered_within_limit.
 
+(* The request is handed to the transport once, so what the client sees is [serve] and the
+   upstream receives the request once; with any further attempt behind the proxy's back the
+   client of an upstream that does not answer would be held beyond the limit. *)
+Theorem C19_single_attempt : forall limit delay st,
+  serve_n attempts_of_proxy limit delay st = (fst (serve limit delay st), snd (serve limit delay st), 1).
+Proof. exact serve_once. Qed.
+Print Assumptions C19_single_attempt.
+
+Theorem C19_within_limit_iff_single_attempt : forall k limit delay st,
+  0 < limit -> limit <= delay -> 1 <= k ->
+  (snd (fst (serve_n k limit delay st)) <= limit <-> k = 1).
+Proof. exact within_limit_iff_single_attempt. Qed.
+Print Assumptions C19_within_limit_iff_single_attempt.
+
+Theorem C19_retry_exceeds_limit_refuted : exists limit delay st,
+  0 < limit /\ limit < snd (fst (serve_n 2 limit delay st)) /\ snd (serve_n 2 limit delay st) = 2.
+Proof. exact retry_exceeds_limit. Qed.
+Print Assumptions C19_retry_exceeds_limit_refuted.
+
 (* The configured dial timeout is enforced for every transport built, TLS settings or not:
    an upstream that cannot be connected within it yields 504, otherwise the upstream's answer. *)
 Theorem C19_dial_timeout_is_504 : forall limit connect st,
